@@ -349,6 +349,38 @@ fn scenario(rep: &mut Report, orc: &mut Oracle, rng: &mut Rng, scratch: &str, si
       }
     }
   }
+  // ---- the temporary file of a purge at the writes of its copies and when complete (Model/MocSetBytes.v
+  // purge_tmp_files), and the main file after the rename, byte for byte
+  if kind == 'P' {
+    let idx: Option<i64> = match point {
+      "append:data_written" => Some(3 * (nth as i64 - 1)),
+      "append:index_stored" => Some(3 * (nth as i64 - 1) + 1),
+      "append:meta_stored" => Some(3 * (nth as i64 - 1) + 2),
+      "purge:tmp_complete" | "purge:renamed" | "writer:before_release" | "writer:released" => Some(-1),
+      _ => None,
+    };
+    if let Some(idx) = idx {
+      let path = if point.starts_with("append:") || point == "purge:tmp_complete" { tmp_path(&file) } else { file.clone() };
+      if let Ok(bytes) = std::fs::read(&path) {
+        if bytes.len() <= 60_000 {
+          let mut req = format!("MSETP 1 {}", ents.len());
+          for e in &ents {
+            let m = &s.mocs[e.payload];
+            req.push_str(&format!(" {} {} {} {}", e.id, e.st, e.d, ranges_str(&m.r)));
+          }
+          req.push_str(&format!(" {}", idx));
+          let model = s.orc.ask(&req);
+          s.rep.evaluations += 1;
+          s.rep.count(&format!("purge-file-bytes-exact:{}", point));
+          let hx: String = bytes.iter().map(|b| format!("{:02x}", b)).collect();
+          if model != format!("OK {}", hx) {
+            let pos = model.bytes().skip(3).zip(hx.bytes()).position(|(a, b)| a != b).unwrap_or(hx.len().min(model.len().saturating_sub(3))) / 2;
+            s.rep.corr_break("the (temporary) file of a purge differs from the model's sequence of files", &format!("{} # {}", shown, req.chars().take(400).collect::<String>()), &format!("{} bytes, first difference at byte {}", bytes.len(), pos), &format!("{} bytes", model.len().saturating_sub(3) / 2), "crates/set purge == Model/MocSetBytes.v purge_tmp_files (C16_purge_every_file_decodes)");
+          }
+        }
+      }
+    }
+  }
   // ---- readers at the boundary
   if let Some(diff) = s.observe(&exp_view) {
     let _ = child.kill();
